@@ -873,3 +873,25 @@ def replay_cg(rec):
     key = {"vals": vals, "k": k, "o": rec["o"], "sw": sw}
     return [{"label": "cg.partition_differs_from_model", "m": rec["best"], "c": got, "key": key},
             {"label": "cg.number_of_loop_iterations_differs_from_model", "m": len(rec["trail"]), "c": clock.n, "key": key}]
+
+
+def replay_ckk(rec):
+    """rec: emitted by CKK.tla (vals, k, best, yields): the real ckk.optimal and ckk.generator on the same stimulus"""
+    vals, k = rec["vals"], rec["k"]
+    ids = list(range(1, len(vals) + 1))
+    key = {"vals": vals, "k": k}
+    outl = []
+    try:
+        B = prtpy.BinnerKeepingContents(lambda i: vals[i - 1])
+        ret = _ckk_mod.optimal(B, k, ids)
+        got = [[int(i) for i in b] for b in ret[1]]
+    except Exception as e:
+        got = ["EXC " + type(e).__name__]
+    outl.append({"label": "ckk.partition_differs_from_model", "m": rec["best"], "c": got, "key": key})
+    try:
+        B = prtpy.BinnerKeepingContents(lambda i: vals[i - 1])
+        ys = [[[int(i) for i in b] for b in y[1]] for y in _ckk_mod.generator(B, k, ids)]
+    except Exception as e:
+        ys = ["EXC " + type(e).__name__]
+    outl.append({"label": "ckk.generator_yields_differ_from_model", "m": rec["yields"], "c": ys, "key": key})
+    return outl
